@@ -127,8 +127,10 @@ int run(const std::unique_ptr<VerilatedContext> &contextp,
                      % static_cast<unsigned>(top->hex->u_processor->instr)
                      % instr;
     }
-    // Handle syscalls
-    if (top->i_clk && contextp->time() > RESET_END && top->o_syscall_valid) {
+    // Handle syscalls. A request is sampled in the clock-high phase before the
+    // edge that retires its instruction; for the instruction at address 0 that
+    // is the last reset edge, when the processor is held in its start state.
+    if (top->i_clk && contextp->time() >= RESET_END - 1 && top->o_syscall_valid) {
       auto syscall = static_cast<hex::Syscall>(top->o_syscall);
       handleSyscall(syscall, top, exitCode, trace);
       if (syscall == hex::Syscall::EXIT) {
